@@ -92,6 +92,10 @@ pub struct CursorTrace {
     pub iter: IterKind,
     pub calls: Vec<Call>,
     pub fin: Final,
+    /// zero-sized cells (`TooDee<()>`): the only way to reach shapes whose row / cell counts
+    /// approach usize::MAX; the ideal sequence is then kept as a pair of counters
+    #[serde(default)]
+    pub zst: bool,
 }
 
 #[derive(Clone, Debug, Serialize, Deserialize)]
@@ -627,6 +631,9 @@ fn run_view_mut(v: TooDeeViewMut<'_, u32>, t: &CursorTrace, g: Geo, cx: &mut Ctx
 /// Execute one cursor trace. Ok(None) = skipped (the trace is not executable, e.g. after
 /// minimisation made a window invalid).
 pub fn exec(t: &CursorTrace, stats: &mut CStats) -> Result<bool, CViol> {
+    if t.zst {
+        return exec_zst(t, stats);
+    }
     let g = match geo_of(t) {
         Some(g) => g,
         None => {
@@ -961,6 +968,402 @@ pub fn gen_trace(rng: &mut Rng, prop: &str, thorough: bool) -> CursorTrace {
         calls.push(call);
     }
     let fin = *[Final::Drop, Final::Count, Final::Last, Final::Fold, Final::Rfold, Final::Collect, Final::RevCollect].get(rng.below(7)).unwrap();
-    CursorTrace { cols, rows, receiver, iter, calls, fin }
+    CursorTrace { cols, rows, receiver, iter, calls, fin, zst: false }
 }
 
+
+// ---------------------------------------------------------------------------------------------
+// zero-sized cells: giant shapes
+
+trait ZItem {
+    fn n(&self) -> usize;
+}
+impl ZItem for &[()] {
+    fn n(&self) -> usize {
+        self.len()
+    }
+}
+impl ZItem for &mut [()] {
+    fn n(&self) -> usize {
+        self.len()
+    }
+}
+impl ZItem for &() {
+    fn n(&self) -> usize {
+        1
+    }
+}
+impl ZItem for &mut () {
+    fn n(&self) -> usize {
+        1
+    }
+}
+
+trait ZCursor: Iterator + DoubleEndedIterator + ExactSizeIterator {
+    fn z_num_cols(&self) -> Option<usize> {
+        None
+    }
+    /// `self[i]` exists? (None = not indexable)
+    fn z_index(&self, _i: usize) -> Option<()> {
+        None
+    }
+}
+impl ZCursor for Rows<'_, ()> {
+    fn z_num_cols(&self) -> Option<usize> {
+        Some(self.num_cols())
+    }
+}
+impl ZCursor for RowsMut<'_, ()> {
+    fn z_num_cols(&self) -> Option<usize> {
+        Some(self.num_cols())
+    }
+}
+impl ZCursor for Cells<'_, ()> {
+    fn z_num_cols(&self) -> Option<usize> {
+        Some(self.num_cols())
+    }
+}
+impl ZCursor for CellsMut<'_, ()> {
+    fn z_num_cols(&self) -> Option<usize> {
+        Some(self.num_cols())
+    }
+}
+impl ZCursor for Col<'_, ()> {
+    fn z_index(&self, i: usize) -> Option<()> {
+        let _: &() = &self[i];
+        Some(())
+    }
+}
+impl ZCursor for ColMut<'_, ()> {
+    fn z_index(&self, i: usize) -> Option<()> {
+        let _: &() = &self[i];
+        Some(())
+    }
+}
+
+/// Geometry in u128 (products of giant dimensions must not wrap in the oracle).
+fn zgeo(t: &CursorTrace) -> Option<(u128, u128)> {
+    let (mut wc, mut wr) = (t.cols as u128, t.rows as u128);
+    let stride = t.cols as u128;
+    let mut data_len = wc * wr;
+    let wins: &[Win] = match &t.receiver {
+        Recv::Owned => &[],
+        Recv::View { wins } | Recv::ViewMut { wins, .. } => wins,
+        _ => return None,
+    };
+    for w in wins {
+        let (s0, s1, e0, e1) = (w.start.0 as u128, w.start.1 as u128, w.end.0 as u128, w.end.1 as u128);
+        if !(s0 <= e0 && s1 <= e1 && e0 <= wc && e1 <= wr) {
+            return None;
+        }
+        let (mut c, mut r) = (e0 - s0, e1 - s1);
+        if c == 0 || r == 0 {
+            if s1 * stride + s0 > data_len {
+                return None; // N1 (unclaimed C03)
+            }
+            c = 0;
+            r = 0;
+        }
+        wc = c;
+        wr = r;
+        data_len = if r == 0 { 0 } else { (r - 1) * stride + c };
+    }
+    Some((wc, wr))
+}
+
+fn drive_zst<I>(mut it: I, t: &CursorTrace, total: u128, item_len: usize, num_cols: usize, stats: &mut CStats) -> Result<(), (usize, String)>
+where
+    I: ZCursor,
+    I::Item: ZItem,
+{
+    // the ideal sequence: `rem` elements remain (all elements are indistinguishable)
+    let mut rem: u128 = total;
+    for (i, call) in t.calls.iter().enumerate() {
+        stats.calls += 1;
+        match *call {
+            Call::Next | Call::NextBack | Call::Nth(_) | Call::NthBack(_) => {
+                let (what, want_some) = match *call {
+                    Call::Next | Call::NextBack => {
+                        let some = rem > 0;
+                        rem = rem.saturating_sub(1);
+                        (if matches!(call, Call::Next) { "next()".to_string() } else { "next_back()".to_string() }, some)
+                    }
+                    Call::Nth(n) | Call::NthBack(n) => {
+                        let some = (n as u128) < rem;
+                        rem = if some { rem - n as u128 - 1 } else { 0 };
+                        (format!("{}({})", if matches!(call, Call::Nth(_)) { "nth" } else { "nth_back" }, n), some)
+                    }
+                    _ => unreachable!(),
+                };
+                let got = guard(|| match *call {
+                    Call::Next => it.next(),
+                    Call::NextBack => it.next_back(),
+                    Call::Nth(n) => it.nth(n),
+                    Call::NthBack(n) => it.nth_back(n),
+                    _ => unreachable!(),
+                }.map(|x| x.n()));
+                match got {
+                    Err(m) => return Err((i, format!("{} panicked: {} (zero-sized cells; the ideal sequence does not)", what, m))),
+                    Ok(g) => {
+                        let want = if want_some { Some(item_len) } else { None };
+                        if g != want {
+                            return Err((i, format!("{} returned {:?} (length of the yielded item), the ideal sequence gives {:?}; {} elements should remain", what, g, want, rem)));
+                        }
+                        if g.is_some() {
+                            stats.yielded += 1;
+                        }
+                    }
+                }
+            }
+            Call::Len | Call::SizeHint => match guard(|| (it.len(), it.size_hint())) {
+                Err(m) => return Err((i, format!("len()/size_hint() panicked: {} ({} elements remain)", m, rem))),
+                Ok((l, h)) => {
+                    if l as u128 != rem || h != (rem as usize, Some(rem as usize)) {
+                        return Err((i, format!("len() = {}, size_hint() = {:?}, the ideal sequence has {}", l, h, rem)));
+                    }
+                }
+            },
+            Call::NumCols => {
+                if let Some(nc) = it.z_num_cols() {
+                    if nc != num_cols {
+                        return Err((i, format!("num_cols() = {}, expected {}", nc, num_cols)));
+                    }
+                }
+            }
+            Call::Index(ix) | Call::IndexSet(ix) => match guard(|| it.z_index(ix)) {
+                Ok(None) => {}
+                Ok(Some(())) => {
+                    if ix as u128 >= rem {
+                        return Err((i, format!("[{}] succeeded although only {} elements remain; it must panic", ix, rem)));
+                    }
+                }
+                Err(m) => {
+                    if (ix as u128) < rem {
+                        return Err((i, format!("[{}] panicked ({}) although {} elements remain", ix, m, rem)));
+                    }
+                }
+            },
+        }
+    }
+    let nstep = t.calls.len();
+    match t.fin {
+        Final::Last => match guard(|| it.last().map(|x| x.n())) {
+            Err(m) => return Err((nstep, format!("last() panicked: {}", m))),
+            Ok(g) => {
+                let want = if rem > 0 { Some(item_len) } else { None };
+                if g != want {
+                    return Err((nstep, format!("last() returned {:?}, the ideal sequence gives {:?}", g, want)));
+                }
+            }
+        },
+        // count() / folds would walk up to 2^64 elements: only the O(1) finals are used here
+        _ => drop(it),
+    }
+    stats.probe("zst_giant_run");
+    Ok(())
+}
+
+fn exec_zst(t: &CursorTrace, stats: &mut CStats) -> Result<bool, CViol> {
+    let dims_ok = (t.cols == 0) == (t.rows == 0) && t.cols.checked_mul(t.rows).is_some();
+    let (wc, wr) = match zgeo(t) {
+        Some(g) if dims_ok => g,
+        _ => {
+            stats.skipped += 1;
+            return Ok(false);
+        }
+    };
+    let wins_bad = match &t.receiver {
+        Recv::View { wins } | Recv::ViewMut { wins, .. } => wins.is_empty() || wins.len() > 3,
+        _ => false,
+    };
+    let mutable_recv = matches!(t.receiver, Recv::Owned) || matches!(t.receiver, Recv::ViewMut { last_shared: false, .. });
+    if wins_bad || (t.iter.is_mut() && !mutable_recv) || matches!(t.iter, IterKind::RefIntoIter | IterKind::MutIntoIter) {
+        stats.skipped += 1;
+        return Ok(false);
+    }
+    *stats.iters.entry(t.iter.name()).or_insert(0) += 1;
+    *stats.receivers.entry("zero_sized_cells").or_insert(0) += 1;
+    let (total, item_len): (u128, usize) = match t.iter {
+        IterKind::Rows | IterKind::RowsMut => (wr, wc as usize),
+        IterKind::Col(c) | IterKind::ColMut(c) => (if (c as u128) < wc { wr } else { 0 }, 1),
+        _ => (wc * wr, 1),
+    };
+    let col_oob = matches!(t.iter, IterKind::Col(c) | IterKind::ColMut(c) if c as u128 >= wc);
+    let num_cols = wc as usize;
+    let mut arr: TooDee<()> = TooDee::init(t.cols, t.rows, ());
+    fn shared<A: TooDeeOps<()>>(a: &A, t: &CursorTrace, total: u128, item_len: usize, num_cols: usize, col_oob: bool, stats: &mut CStats) -> Result<(), (usize, String)> {
+        match t.iter {
+            IterKind::Rows => drive_zst(a.rows(), t, total, item_len, num_cols, stats),
+            IterKind::Col(c) => {
+                if col_oob {
+                    return match guard(|| a.col(c).len()) {
+                        Ok(l) => Err((0, format!("col({}) out of range returned an iterator of length {}; it must panic", c, l))),
+                        Err(_) => Ok(()),
+                    };
+                }
+                drive_zst(a.col(c), t, total, item_len, num_cols, stats)
+            }
+            _ => drive_zst(a.cells(), t, total, item_len, num_cols, stats),
+        }
+    }
+    fn mutable<A: TooDeeOpsMut<()>>(a: &mut A, t: &CursorTrace, total: u128, item_len: usize, num_cols: usize, col_oob: bool, stats: &mut CStats) -> Result<(), (usize, String)> {
+        match t.iter {
+            IterKind::RowsMut => drive_zst(a.rows_mut(), t, total, item_len, num_cols, stats),
+            IterKind::ColMut(c) => {
+                if col_oob {
+                    return match guard(|| a.col_mut(c).len()) {
+                        Ok(l) => Err((0, format!("col_mut({}) out of range returned an iterator of length {}; it must panic", c, l))),
+                        Err(_) => Ok(()),
+                    };
+                }
+                drive_zst(a.col_mut(c), t, total, item_len, num_cols, stats)
+            }
+            _ => drive_zst(a.cells_mut(), t, total, item_len, num_cols, stats),
+        }
+    }
+    let m = t.iter.is_mut();
+    let result = match &t.receiver {
+        Recv::Owned => if m { mutable(&mut arr, t, total, item_len, num_cols, col_oob, stats) } else { shared(&arr, t, total, item_len, num_cols, col_oob, stats) },
+        Recv::View { wins } => {
+            let v0 = arr.view(wins[0].start, wins[0].end);
+            match wins.len() {
+                1 => shared(&v0, t, total, item_len, num_cols, col_oob, stats),
+                2 => shared(&v0.view(wins[1].start, wins[1].end), t, total, item_len, num_cols, col_oob, stats),
+                _ => {
+                    let v1 = v0.view(wins[1].start, wins[1].end);
+                    shared(&v1.view(wins[2].start, wins[2].end), t, total, item_len, num_cols, col_oob, stats)
+                }
+            }
+        }
+        Recv::ViewMut { wins, last_shared } => {
+            let mut v0 = arr.view_mut(wins[0].start, wins[0].end);
+            match (wins.len(), *last_shared) {
+                (1, _) => if m { mutable(&mut v0, t, total, item_len, num_cols, col_oob, stats) } else { shared(&v0, t, total, item_len, num_cols, col_oob, stats) },
+                (2, false) => {
+                    let mut v1 = v0.view_mut(wins[1].start, wins[1].end);
+                    if m { mutable(&mut v1, t, total, item_len, num_cols, col_oob, stats) } else { shared(&v1, t, total, item_len, num_cols, col_oob, stats) }
+                }
+                (2, true) => shared(&v0.view(wins[1].start, wins[1].end), t, total, item_len, num_cols, col_oob, stats),
+                (_, false) => {
+                    let mut v1 = v0.view_mut(wins[1].start, wins[1].end);
+                    let mut v2 = v1.view_mut(wins[2].start, wins[2].end);
+                    if m { mutable(&mut v2, t, total, item_len, num_cols, col_oob, stats) } else { shared(&v2, t, total, item_len, num_cols, col_oob, stats) }
+                }
+                (_, true) => {
+                    let v1 = v0.view_mut(wins[1].start, wins[1].end);
+                    shared(&v1.view(wins[2].start, wins[2].end), t, total, item_len, num_cols, col_oob, stats)
+                }
+            }
+        }
+        _ => unreachable!(),
+    };
+    match result {
+        Ok(()) => Ok(true),
+        Err((step, detail)) => Err(CViol { kind: if step >= t.calls.len() { "final".into() } else { "call".into() }, detail, step, op: format!("{}(zero-sized)", t.iter.name()) }),
+    }
+}
+
+/// A run over zero-sized cells with a giant (or ordinary) shape.
+pub fn gen_trace_zst(rng: &mut Rng, prop: &str) -> CursorTrace {
+    const M: usize = usize::MAX;
+    let shapes: [(usize, usize); 14] = [(M, 1), (1, M), (M / 3, 3), (3, M / 3), (M / 5, 5), (1 << 32, 1 << 16), (1 << 16, 1 << 32), (M / 2, 2), (2, M / 2), (1 << 63, 1), (1, 1 << 63), (1 << 32, (1 << 32) - 1), (7, 9), (M / 7, 7)];
+    let (cols, rows) = shapes[rng.below(shapes.len())];
+    // windows: coordinates near the ends, the middle, or tiny
+    let pick = |rng: &mut Rng, hi: usize| -> usize {
+        match rng.below(7) {
+            0 => 0,
+            1 => hi,
+            2 => hi - hi.min(1),
+            3 => hi / 2,
+            4 => hi.min(rng.below(5)),
+            5 => hi - hi.min(rng.below(5)),
+            _ => if hi == M { rng.next_u64() as usize } else { (rng.next_u64() % (hi as u64 + 1)) as usize },
+        }
+    };
+    let n_wins = rng.below(3);
+    let mut wins = Vec::new();
+    let (mut wc, mut wr) = (cols, rows);
+    for _ in 0..n_wins {
+        if wc == 0 {
+            break;
+        }
+        let (a, b) = (pick(rng, wc), pick(rng, wc));
+        let (c, d) = (pick(rng, wr), pick(rng, wr));
+        let (c0, c1) = (a.min(b), a.max(b));
+        let (r0, r1) = (c.min(d), c.max(d));
+        // keep the windows non-empty (empty ones are exercised by the ordinary runs)
+        let (c0, c1) = if c0 == c1 { (c0 - c0.min(1), c1.max(1).min(wc)) } else { (c0, c1) };
+        let (r0, r1) = if r0 == r1 { (r0 - r0.min(1), r1.max(1).min(wr)) } else { (r0, r1) };
+        if c0 == c1 || r0 == r1 {
+            break;
+        }
+        wins.push(Win { start: (c0, r0), end: (c1, r1) });
+        wc = c1 - c0;
+        wr = r1 - r0;
+    }
+    let want_mut = rng.chance(1, 2);
+    let receiver = if wins.is_empty() {
+        Recv::Owned
+    } else if want_mut || rng.chance(1, 3) {
+        Recv::ViewMut { wins: wins.clone(), last_shared: false }
+    } else {
+        Recv::View { wins: wins.clone() }
+    };
+    let mutable_recv = !matches!(receiver, Recv::View { .. });
+    let use_mut = want_mut && mutable_recv;
+    let iter = match prop {
+        "C08" => if use_mut { IterKind::RowsMut } else { IterKind::Rows },
+        "C09" => {
+            let c = match rng.below(6) {
+                0 => 0,
+                1 => wc - 1,
+                2 => wc,
+                _ => pick(rng, wc - 1),
+            };
+            if use_mut { IterKind::ColMut(c) } else { IterKind::Col(c) }
+        }
+        _ => if use_mut { IterKind::CellsMut } else { IterKind::Cells },
+    };
+    let mut len: u128 = match iter {
+        IterKind::Rows | IterKind::RowsMut => wr as u128,
+        IterKind::Col(c) | IterKind::ColMut(c) => if c < wc { wr as u128 } else { 0 },
+        _ => wc as u128 * wr as u128,
+    };
+    let stride = cols.max(1);
+    let n_calls = rng.range(1, 14);
+    let mut calls = Vec::new();
+    for _ in 0..n_calls {
+        let l = len.min(M as u128) as usize;
+        let n = match rng.below(12) {
+            0 => 0,
+            1 => 1,
+            2 => l.saturating_sub(1),
+            3 => l,
+            4 => l.saturating_add(1),
+            5 => l / 2,
+            6 => M,
+            7 => M / stride,
+            8 => (M / stride).saturating_add(1),
+            9 => (M / stride).saturating_sub(1),
+            10 => l.saturating_sub(rng.below(4)),
+            _ => rng.below(6),
+        };
+        let call = match rng.below(9) {
+            0 | 1 => Call::Next,
+            2 | 3 => Call::NextBack,
+            4 => Call::Nth(n),
+            5 => Call::NthBack(n),
+            6 => Call::Len,
+            7 => if rng.chance(1, 2) { Call::SizeHint } else { Call::NumCols },
+            _ => Call::Index(n),
+        };
+        match call {
+            Call::Next | Call::NextBack => len = len.saturating_sub(1),
+            Call::Nth(n) | Call::NthBack(n) => len = if (n as u128) >= len { 0 } else { len - n as u128 - 1 },
+            _ => {}
+        }
+        calls.push(call);
+    }
+    let fin = if rng.chance(1, 2) { Final::Last } else { Final::Drop };
+    CursorTrace { cols, rows, receiver, iter, calls, fin, zst: true }
+}
